@@ -1,11 +1,12 @@
 /- C07 — property theorems (only). Helper lemmas: Proofs/Names.lean, Proofs/Rename.lean. -/
 import XsdataModel.Proofs.Names
 import XsdataModel.Proofs.Rename
+import XsdataModel.Proofs.RenameClasses
 import XsdataModel.Py.TblEnv
 import XsdataModel.Names.TblUEnv
 
 namespace Props.C07
-open Py Xs.Text Xs.Filters Xs.Rename Proofs.Names Proofs.Rename
+open Py Xs.Text Xs.Filters Xs.Rename Proofs.Names Proofs.Rename Proofs.RenameClasses
 
 /-! ## tables the proofs are about (regenerated from /repo on every run) -/
 
@@ -43,68 +44,71 @@ theorem safe_name_terminates (e : Env) (u : UEnv) (cv : Conv) (hg : goodPrefix c
   obtain ⟨_, r, _, _, _, hf, _⟩ := run_total e u cv hg name
   exact ⟨r, hf, fuel_mono' e u cv r 3 61 name hf⟩
 
+/-- **`Filters` accepts exactly the prefixes whose first ASCII alphanumeric is a letter**; the
+five defaults pass, a prefix such as `_`, `1`, `é` or the empty string is rejected with the
+generator's own error (model: `filtersInit = false` ↔ CodegenError). -/
+theorem default_prefixes_accepted :
+    filtersInit [Tables.classSafePrefix, Tables.fieldSafePrefix, Tables.constantSafePrefix,
+      Tables.moduleSafePrefix, Tables.packageSafePrefix] = true ∧
+    (∀ c ∈ allCases, ∀ p ∈ defaultPrefixes, validPrefix (Conv.mk c p).pfx = true) := by decide +kernel
+
+example : filtersInit ["type".toList, ['_'], "value".toList] = false ∧ validPrefix ['1', 'a'] = false ∧
+    validPrefix [] = false ∧ validPrefix [Char.ofNat 0xE9] = false ∧ validPrefix "_x-1".toList = true := by
+  decide +kernel
+
+/-- **safe_name terminates for every convention `Filters` accepts**: whatever the case, the
+accepted prefix and the name (all of Unicode), eleven calls suffice (each rewrite makes the slug
+longer and no reserved word has more than 8 characters — checked on the extracted table). -/
+theorem safe_name_terminates_accepted (e : Env) (u : UEnv) (cv : Conv) (hv : validPrefix cv.pfx = true)
+    (name : Str) : ∃ r, safeNameFuel e u cv 11 name = .ok r ∧ safeName e u cv name = .ok r := by
+  obtain ⟨_, r, _, _, hf, _⟩ := run_valid e u cv hv name
+  exact ⟨r, hf, fuel_mono' e u cv r 11 53 name hf⟩
+
+example : validPrefix fieldConv.pfx = true ∧ validPrefix "class".toList = true ∧
+    safeName Env.ascii UEnv.ascii ⟨.snake, "class".toList⟩ "class".toList = .ok "class_class".toList := by
+  decide +kernel
+
+/-- without the validation the function itself still diverges on a rejected prefix: this is what
+`Filters.validate_safe_prefixes` keeps out (model: the fuel runs out). -/
+theorem safe_name_alone_diverges_for_rejected_prefix :
+    validPrefix ['_'] = false ∧
+    safeName Env.ascii UEnv.ascii ⟨.snake, ['_']⟩ "class".toList = .recursionError := by
+  decide +kernel
+
 /-- **never a reserved word**: the result is not in `text.stop_words`. -/
-theorem safe_name_not_reserved (e : Env) (u : UEnv) (cv : Conv) (hg : goodPrefix cv = true)
+theorem safe_name_not_reserved (e : Env) (u : UEnv) (cv : Conv) (hv : validPrefix cv.pfx = true)
     (name r : Str) (h : safeName e u cv name = .ok r) : isReserved r = false := by
-  obtain ⟨_, r', _, _, _, hf, hnr⟩ := run_total e u cv hg name
-  have := fuel_mono' e u cv r' 3 61 name hf
+  obtain ⟨_, r', _, _, hf, hnr⟩ := run_valid e u cv hv name
+  have := fuel_mono' e u cv r' 11 53 name hf
   unfold safeName defaultFuel at h
   rw [this] at h
   cases h
   exact hnr
 
-/-- **always an identifier** (seven word-splitting cases): whatever the input name, the
+/-- **always an identifier**: for all eight naming cases (originalCase included, now that it
+strips the characters Python does not allow), every accepted prefix and every input name the
 result satisfies `str.isidentifier()`. -/
-theorem safe_name_identifier (e : Env) (u : UEnv) (cv : Conv) (hg : goodPrefix cv = true)
-    (hc : cv.case ≠ .original) (name r : Str) (h : safeName e u cv name = .ok r) :
-    u.isIdentifier r = true := by
-  obtain ⟨n, r', hD, _, hr, hf, _⟩ := run_total e u cv hg name
-  have := fuel_mono' e u cv r' 3 61 name hf
+theorem safe_name_identifier (e : Env) (u : UEnv) (cv : Conv) (hv : validPrefix cv.pfx = true)
+    (name r : Str) (h : safeName e u cv name = .ok r) : u.isIdentifier r = true := by
+  obtain ⟨n, r', hD, hr, hf, _⟩ := run_valid e u cv hv name
+  have := fuel_mono' e u cv r' 11 53 name hf
   unfold safeName defaultFuel at h
   rw [this] at h
   cases h
-  obtain ⟨r2, hr2, hh, hok⟩ := applyCase_shape u cv.case hc n hD.2
-  rw [hr] at hr2
-  cases hr2
-  exact isIdentifier_of_shape u _ hh hok
+  by_cases hc : cv.case = .original
+  · rw [hc] at hr
+    simp only [applyCase, Option.some.injEq] at hr
+    subst hr
+    exact original_identifier u n hD.2
+  · obtain ⟨r2, hr2, hh, hok⟩ := applyCase_shape u cv.case hc n hD.2
+    rw [hr] at hr2
+    cases hr2
+    exact isIdentifier_of_shape u _ hh hok
 
-example : goodPrefix fieldConv = true ∧ fieldConv.case ≠ .original := by decide +kernel
-
-/-- full-strength statement for `originalCase` -/
-def OriginalCaseAlwaysIdentifier (e : Env) (u : UEnv) : Prop :=
-  ∀ name r, safeName e u ⟨.original, Tables.fieldSafePrefix⟩ name = .ok r → u.isIdentifier r = true
-
-/-- … which is false with the interpreter's tables: `a⁰` (SUPERSCRIPT ZERO is `\w` but not
-XID_Continue) is returned unchanged. -/
-theorem original_case_not_identifier : ¬ OriginalCaseAlwaysIdentifier tblEnv tblUEnv := by
-  intro h
-  have := h ['a', Char.ofNat 0x2070] ['a', Char.ofNat 0x2070] (by decide +kernel)
-  revert this
+example : validPrefix Tables.fieldSafePrefix = true ∧
+    safeName tblEnv tblUEnv ⟨.original, Tables.fieldSafePrefix⟩ ['a', Char.ofNat 0x2070] = .ok ['a'] ∧
+    safeName tblEnv tblUEnv ⟨.original, Tables.fieldSafePrefix⟩ [Char.ofNat 0x2070] = .ok "value_".toList := by
   decide +kernel
-
-/-- the provable part: names all of whose `\w` characters are XID_Continue. -/
-theorem safe_name_identifier_original_partial (e : Env) (u : UEnv) (p : Str)
-    (hg : goodPrefix ⟨.original, p⟩ = true) (name r : Str) (hx : XidSafe u name)
-    (h : safeName e u ⟨.original, p⟩ name = .ok r) : u.isIdentifier r = true := by
-  obtain ⟨n, r', hD, hch, hr, hf, _⟩ := run_total e u ⟨.original, p⟩ hg name
-  have := fuel_mono' e u _ r' 3 61 name hf
-  unfold safeName defaultFuel at h
-  rw [this] at h
-  cases h
-  simp only [applyCase, Option.some.injEq] at hr
-  subst hr
-  apply original_identifier u n hD.2
-  intro x hx' hw
-  rcases hch x hx' with h1 | h1
-  · exact hx x h1 hw
-  · exact xid_of_ascii_word u x h1 hw
-
-example : goodPrefix ⟨.original, Tables.fieldSafePrefix⟩ = true ∧
-    XidSafe tblUEnv ['x', '-', Char.ofNat 0xE9, '1'] := by
-  refine ⟨by decide +kernel, ?_⟩
-  intro x hx
-  simp at hx
-  rcases hx with rfl | rfl | rfl | rfl <;> decide +kernel
 
 /-! ## keywords
 
@@ -122,12 +126,12 @@ keyword from `stop_words` (or run under an interpreter with a new keyword) and t
 theorem kwlist_subset_stop_words :
     Tables.kwlist.all (fun k => Tables.stopWords.contains k) = true := by decide +kernel
 
-/-- **safe_name never returns a Python keyword** — every naming case, every good prefix,
+/-- **safe_name never returns a Python keyword** — every naming case, every accepted prefix,
 every name (all of Unicode), every Unicode environment. -/
-theorem safe_name_never_keyword (e : Env) (u : UEnv) (cv : Conv) (hg : goodPrefix cv = true) :
+theorem safe_name_never_keyword (e : Env) (u : UEnv) (cv : Conv) (hv : validPrefix cv.pfx = true) :
     NeverKeyword e u cv := by
   intro name r h
-  have hnr := safe_name_not_reserved e u cv hg name r h
+  have hnr := safe_name_not_reserved e u cv hv name r h
   cases hk : Tables.kwlist.contains r
   · rfl
   · exfalso
@@ -137,7 +141,7 @@ theorem safe_name_never_keyword (e : Env) (u : UEnv) (cv : Conv) (hg : goodPrefi
     rw [hnr] at this
     cases this
 
-example : goodPrefix fieldConv = true ∧
+example : validPrefix fieldConv.pfx = true ∧
     safeName Env.ascii UEnv.ascii fieldConv "await".toList = .ok "await_value".toList ∧
     safeName Env.ascii UEnv.ascii moduleConv "lambda".toList = .ok "lambda_mod".toList := by
   decide +kernel
@@ -153,13 +157,6 @@ theorem soft_keywords_are_identifiers (u : UEnv) :
   have := h k hk
   simp only [Bool.and_eq_true] at this
   exact isIdentifier_of_shape' u k this.1 this.2
-
-/-- a safe prefix without a leading letter is outside `goodPrefix`; the real function then
-recurses until the interpreter gives up (the model: until the fuel is gone). -/
-theorem safe_name_diverges_for_bad_prefix :
-    goodPrefix ⟨.snake, ['_']⟩ = false ∧
-    safeName Env.ascii UEnv.ascii ⟨.snake, ['_']⟩ "class".toList = .recursionError := by
-  decide +kernel
 
 /-! ## de-duplication by slug -/
 
@@ -249,53 +246,36 @@ theorem next_available_name_fresh (name : Str) (inner : List Str) :
     rw [show (inner.map alnum).length + 1 = (List.map alnum inner).length + 1 from rfl, hk]
     rfl
 
-/-! ## rename_duplicate_attributes / RenameDuplicateClasses: the full-strength statements fail -/
+/-! ## rename_duplicate_attributes / RenameDuplicateClasses -/
 
 /-- what `RenameDuplicateAttributes` is for: afterwards no two attrs share a slug -/
 def SlugsDistinctAfterRename : Prop :=
   ∀ attrs : List Attr, ((renameDuplicateAttrs attrs).map Attr.slug).Nodup
 
+/-- **full strength** (since the name picked "by preference" is re-checked): for *every* attr
+list all slugs are pairwise different afterwards — invariant over the groups in processing
+order; every renamed attr receives a slug no other attr has at that moment. -/
+theorem slugs_distinct_after_rename : SlugsDistinctAfterRename := rename_nodup
+
 def attrsPref : List Attr :=
   [⟨"Element".toList, "a".toList, none⟩, ⟨"Attribute".toList, "a".toList, none⟩,
    ⟨"Element".toList, "a_Attribute".toList, none⟩]
 
-/-- `rename_attribute_by_preference` never re-checks: element `a`, attribute `a`, element
-`a_Attribute` end as `a`, `a_Attribute`, `a_Attribute`. -/
-theorem slugs_distinct_after_rename_false : ¬ SlugsDistinctAfterRename := by
-  intro h
-  have := h attrsPref
-  revert this
-  decide +kernel
-
-/-- the generated dataclass therefore has two fields `a_attribute` -/
-theorem preference_rename_duplicate_field :
-    (renameDuplicateAttrs attrsPref).map (fun a => safeName Env.ascii UEnv.ascii fieldConv a.name) =
-      [.ok "a".toList, .ok "a_attribute".toList, .ok "a_attribute".toList] := by decide +kernel
-
-/-- a namespace whose `clean_uri` has no alphanumerics gives the renamed attr its old slug back -/
-theorem preference_rename_same_slug :
-    ((renameDuplicateAttrs [⟨"Element".toList, "a".toList, none⟩,
-        ⟨"Element".toList, "a".toList, some "http://www".toList⟩]).map Attr.slug) =
-      ["a".toList, "a".toList] := by decide +kernel
-
-/-- the provable part: when no slug occurs exactly twice among non-enumeration attrs (so
-nothing is renamed "by preference"), all slugs are pairwise different afterwards — for every
-attr list, by an invariant over the groups in processing order. -/
-theorem slugs_distinct_after_rename_partial (attrs : List Attr) (h : pairFree attrs = true) :
-    ((renameDuplicateAttrs attrs).map Attr.slug).Nodup := rename_pairFree_nodup attrs h
-
-example : pairFree [⟨"Element".toList, "a".toList, none⟩, ⟨"Attribute".toList, "A".toList, none⟩,
-    ⟨"Element".toList, "a_".toList, none⟩, ⟨"Element".toList, "a_1".toList, none⟩,
-    ⟨"Enumeration".toList, "b".toList, none⟩, ⟨"Enumeration".toList, "B".toList, none⟩] = true := by
-  decide +kernel
+/-- the former witnesses: `a`, `a`(Attribute), `a_Attribute` and the namespace `http://www` -/
+example : (renameDuplicateAttrs attrsPref).map (·.name) =
+      ["a".toList, "a_Attribute_1".toList, "a_Attribute".toList] ∧
+    (renameDuplicateAttrs [⟨"Element".toList, "a".toList, none⟩,
+        ⟨"Element".toList, "a".toList, some "http://www".toList⟩]).map (·.name) =
+      ["a".toList, "_a_1".toList] := by decide +kernel
 
 /-- … and then the generated field names are pairwise different too, provided every renamed
-name passes `safe_name` unchanged (word-splitting cases). -/
+name passes `safe_name` unchanged (word-splitting cases). The hypothesis is what
+C07-safe-prefix-collision (still open) is about. -/
 theorem field_names_distinct_partial (e : Env) (u : UEnv) (cv : Conv) (hc : cv.case ≠ .original)
-    (attrs : List Attr) (h : pairFree attrs = true)
+    (attrs : List Attr)
     (hplain : ∀ a ∈ renameDuplicateAttrs attrs, ∃ r, safeNameStep e u cv a.name = .done r) :
     ((renameDuplicateAttrs attrs).map (fun a => safeNameStep e u cv a.name)).Nodup := by
-  have hs := rename_pairFree_nodup attrs h
+  have hs := rename_nodup attrs
   rw [List.Nodup, List.pairwise_map] at hs ⊢
   apply hs.imp_of_mem
   intro a b ha hb hne heq
@@ -305,16 +285,78 @@ theorem field_names_distinct_partial (e : Env) (u : UEnv) (cv : Conv) (hc : cv.c
   cases heq
   exact plain_names_distinct e u cv hc a.name b.name r1 r1 h1 h2 hne rfl
 
-def ClassKeysDistinctAfterRename : Prop :=
-  ∀ cs : List Cls, (∀ c ∈ cs, c.location = "l".toList) →
-    ((renameClasses "filenames".toList cs).map (fun q => alnum (splitQName q).2)).Nodup
+example : (renameDuplicateAttrs attrsPref).map (fun a => safeNameStep Env.ascii UEnv.ascii fieldConv a.name) =
+    [.done "a".toList, .done "a_attribute_1".toList, .done "a_attribute".toList] := by decide +kernel
 
-/-- `add_abstract_suffix` does not consult the reserved names -/
-theorem abstract_suffix_collision : ¬ ClassKeysDistinctAfterRename := by
-  intro h
-  have := h [⟨"a".toList, true, true, "l".toList⟩, ⟨"A".toList, false, false, "l".toList⟩,
-    ⟨"a_abstract".toList, false, false, "l".toList⟩] (by decide +kernel)
-  revert this
-  decide +kernel
+/-- **`add_abstract_suffix` consults the reserved names**: in both branches (the `_abstract`
+suffix, or the numeric fallback when that key is taken) the key it records was not reserved
+before, and the reserved set grows by exactly that key. -/
+theorem abstract_suffix_fresh (useNames : Bool) (st : RState) (i : Nat) (c : Cls)
+    (hc : st.cur[i]? = some c) :
+    ∃ k, (addAbstractSuffix useNames st i c).reserved = k :: builtReserved useNames st ∧
+      (builtReserved useNames st).contains k = false := by
+  have hb : builtReserved useNames { st with reserved := builtReserved useNames st } =
+      builtReserved useNames st := by
+    unfold builtReserved
+    by_cases h0 : st.reserved.isEmpty = true
+    · simp only [h0, if_true]
+      cases hm : st.cur.map (fun c => alnum (getter useNames c)) with
+      | nil => simp
+      | cons a t => simp
+    · simp [h0]
+  unfold addAbstractSuffix
+  generalize c.qname ++ "_abstract".toList = newq
+  simp only []
+  by_cases hcon : (builtReserved useNames st).contains
+      (alnum (if useNames = true then (splitQName newq).2 else newq)) = true
+  · -- numeric fallback
+    rw [if_pos hcon]
+    unfold addNumericSuffix
+    simp only [hc, hb]
+    obtain ⟨k, hk, _, hfree⟩ := nextQNameIdx_spec useNames (splitQName c.qname).1 (splitQName c.qname).2
+      (builtReserved useNames st) 1
+    simp only [hk]
+    exact ⟨_, rfl, hfree⟩
+  · rw [if_neg hcon]
+    exact ⟨_, rfl, by simpa using hcon⟩
+
+/-- `RenameDuplicateClasses.should_use_names` -/
+def useNamesOf (style : Str) (cs : List Cls) : Bool :=
+  Tables.requireUniqueNames.contains style || ((cs.map (·.location)).eraseDups.length == 1)
+
+/-- what `RenameDuplicateClasses` is for: afterwards no two classes share a comparison key
+(`alnum` of the name, or of the qualified name when names need not be unique) -/
+def ClassKeysDistinctAfterRename : Prop :=
+  ∀ (style : Str) (cs : List Cls), (∀ c ∈ cs, wfQ c.qname = true) →
+    ((renameClasses style cs).map
+      (fun q => alnum (if useNamesOf style cs then (splitQName q).2 else q))).Nodup
+
+/-- **full strength** (since `add_abstract_suffix` consults the reserved names): for every
+structure style and every list of classes with well-formed qualified names (`{ns}name` with
+non-empty parts, or a name not starting with `{`), all comparison keys are pairwise different
+afterwards. Invariant: the reserved set contains every current key once it is built, every
+rename picks a key outside it, and at most one class per group keeps its key. -/
+theorem class_keys_distinct_after_rename : ClassKeysDistinctAfterRename := by
+  intro style cs hwf
+  have h := renameClasses_nodup_aux (useNamesOf style cs) cs hwf
+  simp only [] at h
+  unfold renameClasses
+  simp only [List.map_map]
+  have hf : ((fun q => alnum (if useNamesOf style cs = true then (splitQName q).2 else q)) ∘ fun c : Cls => c.qname) =
+      K (useNamesOf style cs) := by
+    funext c
+    simp only [Function.comp, K, getter, Cls.name]
+  rw [hf]
+  exact h
+
+example : (∀ c ∈ [(⟨"{urn:x}a".toList, true, true, "l1".toList⟩ : Cls), ⟨"{urn:x}A".toList, false, false, "l2".toList⟩,
+      ⟨"a_abstract".toList, false, false, "l1".toList⟩], wfQ c.qname = true) ∧
+    wfQ "{ns}".toList = false ∧ wfQ "{}a".toList = false := by decide +kernel
+
+/-- the former witness: `a` (abstract element), `A`, `a_abstract` now end with three different keys -/
+example : renameClasses "filenames".toList
+    [⟨"a".toList, true, true, "l".toList⟩, ⟨"A".toList, false, false, "l".toList⟩,
+     ⟨"a_abstract".toList, false, false, "l".toList⟩] =
+    ["a_1".toList, "A".toList, "a_abstract".toList] := by decide +kernel
 
 end Props.C07
